@@ -215,7 +215,7 @@ def accepts(mode, b, opts=frozenset()):
 
 # ---- covers derived from the tables ------------------------------------------------------------------
 def classes_for(mode):
-    return ASCII_CLASSES + ("hu" if mode == "6531" else "h")
+    return ASCII_CLASSES + ("u" if mode == "6531" else "h")
 
 
 def reachable(mode, opts=frozenset()):
